@@ -49,7 +49,7 @@ def gen_case(rng, tier):
         c["reqs"] = [r for r in c["reqs"] if r[0] == "bytes"] or [["bytes", 0, -1]]
         return c
     ver = rng.pick([1, 2])
-    ms = rng.weighted([(1, 1), (8, 3), (16, 3), (128, 2), (2048, 1)])
+    ms = rng.weighted([(1, 1), (3, 1), (8, 3), (16, 3), (24, 1), (63, 1), (128, 2), (2048, 1)])
     cs = ms * 512
     maxc = 40 if tier == "thorough" else 12
     n = rng.randint(1, maxc if ms < 2048 else 4)
@@ -96,14 +96,15 @@ def gen_case(rng, tier):
         for b, s in zip(idx, slots):
             pos[b] = base + s
     bat = []
+    unaligned = ver == 1 and ms > 1 and rng.chance(0.5)      # v1 entries are sector offsets: any sector, not only cluster multiples
     for b in range(n + extra):
         if b in pos:
-            bat.append(pos[b] * ms if ver == 1 else pos[b])
+            bat.append((pos[b] * ms + (rng.randrange(ms) if unaligned else 0)) if ver == 1 else pos[b])
         else:
             bat.append(0)
     top = max(pos.values(), default=hdr_clusters)
     c = {"kind": f"v{ver}", "version": ver, "m_sectors": ms, "size": size, "bat": bat, "first_block": hdr_clusters * ms,
-         "file_size": (top + 1) * cs, "place": place, "mode": mode, "salt": rng.randrange(1 << 30)}
+         "file_size": (top + 2) * cs, "place": place, "mode": mode, "salt": rng.randrange(1 << 30)}
     c["reqs"] = gen_requests(rng, size, cs, n=6)
     return c
 
